@@ -28,6 +28,44 @@ pub static SCHEMA_JSON: &str = include_str!(concat!(env!("OUT_DIR"), "/schema.js
 /// every parse-derived value of these types.  Each entry: (type name, why).
 pub static OPAQUE_RELATION_TYPES: &[(&str, &str)] = &[];
 
+/// Hint fields: `None` means "let the writer infer it", and owned(read(..)) always fills the field
+/// in.  When written as `None` the field is not compared (everything else is, and recompilation
+/// must still give the same bytes).  When written as `Some`, `value_record_relations` below decides
+/// whether the hint contradicts the record.
+pub static HINT_FIELDS: &[(&str, &str, &str)] = &[(
+    "ValueRecord",
+    "explicit_format",
+    "private field of the hand-written gpos::ValueRecord; None = infer the ValueFormat from the fields that are present",
+)];
+
+
+/// Flag bits that the specification fixes at 1 and the writer therefore forces (the schema carries
+/// this only as a doc comment).  A value with such a bit clear is not a table value →
+/// `outside_domain{reserved_bit_must_be_set}`.  (flags type, bits, source)
+pub static BITS_FIXED_AT_ONE: &[(&str, u64, &str)] = &[("HeaderFlags", 0x0001, "sbix header flags, 'Bit 0: Set to 1'")];
+
+/// Hand-written enums whose variant is selected, when reading, by a tag stored in the parent record
+/// (the schema only says `#[read_offset_with($tag)]`; the mapping lives in hand-written readers and
+/// is re-stated here from the OpenType spec).  A value whose variant contradicts its tag is
+/// self-contradictory → `outside_domain{tag_selects_variant}`.
+/// (parent struct, tag field, path to the enum value, [(tag prefix, variant)], variant for other tags)
+pub static TAG_SELECTED_VARIANTS: &[(&str, &str, &[&str], &[(&str, &str)], Option<&str>)] = &[
+    (
+        "FeatureRecord",
+        "feature_tag",
+        &["feature", "feature_params"],
+        &[("size", "Size"), ("ss", "StylisticSet"), ("cv", "CharacterVariant")],
+        None, // any other tag: no FeatureParams can be read back
+    ),
+    (
+        "DataMapRecord",
+        "tag",
+        &["data"],
+        &[("dlng", "ScriptLangTags"), ("slng", "ScriptLangTags")],
+        Some("Other"),
+    ),
+];
+
 #[derive(Debug, Clone)]
 pub struct SField {
     pub name: String,
@@ -54,6 +92,13 @@ pub struct Schema {
     pub structs: BTreeMap<String, Vec<SStruct>>,
     /// flags type name → (mask, const name → value)
     pub flags: BTreeMap<String, (u64, BTreeMap<String, u64>)>,
+    /// enum type name → variant name → numeric value
+    pub enums: BTreeMap<String, BTreeMap<String, u64>>,
+    /// format (enum) name → (repr enum type, variant name → (is_equal, repr variant))  from `#[match_if($format ==|!= Repr::Variant)]`
+    pub match_if: BTreeMap<String, (String, BTreeMap<String, (bool, String)>)>,
+    /// group (enum) name → (inner table, discriminant field, variant name → value)
+    pub groups: BTreeMap<String, Vec<(String, String, BTreeMap<String, u64>)>>,
+    pub flag_alphabets: BTreeMap<String, Vec<u64>>,
     pub literal_counts: BTreeMap<(String, String), usize>,
     pub remainder_fields: BTreeSet<(String, String)>,
     pub survey: Value,
@@ -161,15 +206,64 @@ impl Schema {
             });
         }
         let mut flags = BTreeMap::new();
+        let mut flag_alphabets = BTreeMap::new();
         for f in v["flags"].as_array().unwrap() {
             let mut consts = BTreeMap::new();
+            let mut alpha: Vec<u64> = vec![0];
             for c in f["consts"].as_array().unwrap() {
                 consts.insert(c["name"].as_str().unwrap().to_string(), c["value"].as_u64().unwrap());
+                alpha.push(c["value"].as_u64().unwrap());
             }
+            alpha.push(f["mask"].as_u64().unwrap());
+            alpha.push(match f["repr"].as_str().unwrap_or("u16") {
+                "u8" => 0xFF,
+                "u32" => 0xFFFF_FFFF,
+                _ => 0xFFFF,
+            });
+            let mut seen = BTreeSet::new();
+            alpha.retain(|x| seen.insert(*x));
+            flag_alphabets.insert(f["name"].as_str().unwrap().to_string(), alpha);
             flags.insert(
                 f["name"].as_str().unwrap().to_string(),
                 (f["mask"].as_u64().unwrap(), consts),
             );
+        }
+        let mut enums: BTreeMap<String, BTreeMap<String, u64>> = BTreeMap::new();
+        for e in v["enums"].as_array().unwrap() {
+            let m = enums.entry(e["name"].as_str().unwrap().to_string()).or_default();
+            for c in e["consts"].as_array().unwrap() {
+                m.insert(c["name"].as_str().unwrap().to_string(), c["value"].as_u64().unwrap());
+            }
+        }
+        let mut groups: BTreeMap<String, Vec<(String, String, BTreeMap<String, u64>)>> = BTreeMap::new();
+        for g in v["groups"].as_array().unwrap() {
+            let mut m = BTreeMap::new();
+            for c in g["variants"].as_array().unwrap() {
+                m.insert(c["name"].as_str().unwrap().to_string(), c["value"].as_u64().unwrap());
+            }
+            groups.entry(g["name"].as_str().unwrap().to_string()).or_default().push((
+                g["inner"].as_str().unwrap().to_string(),
+                g["field"].as_str().unwrap().to_string(),
+                m,
+            ));
+        }
+        let mut match_if: BTreeMap<String, (String, BTreeMap<String, (bool, String)>)> = BTreeMap::new();
+        for f in v["formats"].as_array().unwrap() {
+            let repr = f["repr"].as_str().unwrap().to_string();
+            let mut m = BTreeMap::new();
+            for var in f["variants"].as_array().unwrap() {
+                if let Some(c) = var["attrs"].get("match_if").and_then(|x| x.as_str()) {
+                    // `$format != DeltaFormat::VariationIndex`
+                    let eq = c.contains("==");
+                    if let Some((_, rhs)) = c.split_once(if eq { "==" } else { "!=" }) {
+                        let rv = rhs.trim().rsplit("::").next().unwrap_or("").to_string();
+                        m.insert(var["name"].as_str().unwrap().to_string(), (eq, rv));
+                    }
+                }
+            }
+            if !m.is_empty() {
+                match_if.insert(f["name"].as_str().unwrap().to_string(), (repr, m));
+            }
         }
         let survey = serde_json::json!({
             "schema_files_excluding_test_inputs": v["structs"].as_array().unwrap().iter().map(|s| s["file"].as_str().unwrap().to_string()).collect::<BTreeSet<_>>().len(),
@@ -181,6 +275,10 @@ impl Schema {
         });
         Schema {
             structs,
+            enums,
+            match_if,
+            groups,
+            flag_alphabets,
             flags,
             literal_counts,
             remainder_fields,
@@ -193,12 +291,25 @@ impl Schema {
             .contains(&(sname.to_string(), field.to_string()))
     }
 
-    pub fn verdict(&self, v: &Value) -> Verdict {
+    /// `root_args`: the read arguments a hand adaptor will supply for the root table (derived by the
+    /// adaptor from the value itself), positionally matching the schema's `#[read_args(..)]`.
+    pub fn verdict(&self, v: &Value, root_args: &[i128]) -> Verdict {
         let mut st = St {
             outside: None,
             unresolved: None,
         };
-        self.walk(v, &BTreeMap::new(), &mut st);
+        let mut root = BTreeMap::new();
+        if !root_args.is_empty() {
+            if let Some(o) = v.as_object() {
+                let name = o.get("$t").and_then(|x| x.as_str()).unwrap_or("");
+                if let Some(s) = self.pick_struct(name, o) {
+                    for (a, val) in s.read_args.iter().zip(root_args.iter()) {
+                        root.insert(a.clone(), Some(*val));
+                    }
+                }
+            }
+        }
+        self.walk(v, &root, &mut st);
         if let Some(r) = st.outside {
             return Verdict::Outside(r);
         }
@@ -206,6 +317,44 @@ impl Schema {
             return Verdict::StabilityOnly(r);
         }
         Verdict::InDomain
+    }
+
+    /// Hand-written `gpos::ValueRecord` (no schema): its effective ValueFormat, or None when an explicit
+    /// format contradicts the record (a scalar is present exactly when its bit is set; a device
+    /// offset only when its bit is set).  Bit names come from the schema's `flags u16 ValueFormat`.
+    fn value_record_format(&self, o: &serde_json::Map<String, Value>) -> Option<u64> {
+        let (_, consts) = self.flags.get("ValueFormat")?;
+        let pairs = [
+            ("x_placement", "X_PLACEMENT", false),
+            ("y_placement", "Y_PLACEMENT", false),
+            ("x_advance", "X_ADVANCE", false),
+            ("y_advance", "Y_ADVANCE", false),
+            ("x_placement_device", "X_PLACEMENT_DEVICE", true),
+            ("y_placement_device", "Y_PLACEMENT_DEVICE", true),
+            ("x_advance_device", "X_ADVANCE_DEVICE", true),
+            ("y_advance_device", "Y_ADVANCE_DEVICE", true),
+        ];
+        let mut inferred = 0u64;
+        for (f, c, _) in pairs {
+            if o.get(f).map(|x| !x.is_null()).unwrap_or(false) {
+                inferred |= consts.get(c)?;
+            }
+        }
+        match o.get("explicit_format") {
+            None | Some(Value::Null) => Some(inferred),
+            Some(e) => {
+                let bits = e.get("bits")?.as_u64()?;
+                for (f, c, is_offset) in pairs {
+                    let bit = *consts.get(c)?;
+                    let present = o.get(f).map(|x| !x.is_null()).unwrap_or(false);
+                    let set = bits & bit != 0;
+                    if (present && !set) || (!is_offset && set && !present) {
+                        return None;
+                    }
+                }
+                Some(bits)
+            }
+        }
     }
 
     fn pick_struct<'a>(&'a self, name: &str, obj: &serde_json::Map<String, Value>) -> Option<&'a SStruct> {
@@ -230,6 +379,39 @@ impl Schema {
                     if var.starts_with("Pending") {
                         st.out(format!("placeholder:{}::{}", e.as_str().unwrap_or(""), var));
                     }
+                    let ename = e.as_str().unwrap_or("");
+                    // (7) `format Repr@N F { #[match_if($format != Repr::X)] Variant(T) }`: the T value's
+                    // field of type Repr must satisfy the condition of its variant
+                    if let Some((repr, m)) = self.match_if.get(ename) {
+                        if let (Some((eq, rv)), Some(c)) = (m.get(var), o["$c"].as_object()) {
+                            for x in c.values() {
+                                if x.get("$e").and_then(|e| e.as_str()) == Some(repr.as_str()) {
+                                    let is = x.get("$v").and_then(|e| e.as_str()) == Some(rv.as_str());
+                                    if is != *eq {
+                                        st.out(format!("format_match_if:{ename}::{var}"));
+                                    }
+                                }
+                            }
+                        }
+                    }
+                    // (6) `group G(Inner, $field) { n => Variant(..) }`: a plain `$field` must carry n
+                    if let Some(gs) = self.groups.get(ename) {
+                        let c = &o["$c"];
+                        let inner = c.get("$t").and_then(|x| x.as_str()).unwrap_or("");
+                        for (gi, field, map) in gs {
+                            if gi != inner {
+                                continue;
+                            }
+                            if let (Some(x), Some(n)) = (c.get(field.as_str()).and_then(|x| x.as_u64()), map.get(var)) {
+                                if x != *n {
+                                    st.out(format!("group_discriminant:{ename}.{field}"));
+                                }
+                            }
+                        }
+                    }
+                    if let Some((_, why)) = OPAQUE_RELATION_TYPES.iter().find(|(t, _)| *t == ename) {
+                        st.unres(format!("opaque_relation_type:{ename} ({why})"));
+                    }
                     self.walk(&o["$c"], bound, st);
                     return;
                 }
@@ -245,6 +427,52 @@ impl Schema {
                         if bits & !mask != 0 {
                             st.out(format!("undefined_flag_bits:{name}"));
                         }
+                        for (t, must, _) in BITS_FIXED_AT_ONE {
+                            if *t == name && bits & must != *must {
+                                st.out(format!("reserved_bit_must_be_set:{name}"));
+                            }
+                        }
+                    }
+                }
+                if name == "ValueRecord" {
+                    if self.value_record_format(o).is_none() {
+                        st.out("value_record_format:ValueRecord.explicit_format".to_string());
+                    }
+                }
+                if name == "SinglePosFormat2" {
+                    // one table has one valueFormat (the writer takes the first record's)
+                    if let Some(Value::Array(recs)) = o.get("value_records") {
+                        let fmts: BTreeSet<Option<u64>> = recs
+                            .iter()
+                            .filter_map(|r| r.as_object())
+                            .map(|r| self.value_record_format(r))
+                            .collect();
+                        if fmts.len() > 1 {
+                            st.out("value_record_format:SinglePosFormat2.value_records".to_string());
+                        }
+                    }
+                }
+                for (parent, tag_field, path, map, other) in TAG_SELECTED_VARIANTS {
+                    if *parent != name {
+                        continue;
+                    }
+                    let tag: Vec<u8> = o
+                        .get(*tag_field)
+                        .and_then(|t| t.as_array())
+                        .map(|a| a.iter().map(|b| b.as_u64().unwrap_or(0) as u8).collect())
+                        .unwrap_or_default();
+                    let mut cur: &Value = v;
+                    for p in path.iter() {
+                        cur = &cur[*p];
+                    }
+                    let expect = map
+                        .iter()
+                        .find(|(pre, _)| tag.starts_with(pre.as_bytes()))
+                        .map(|(_, var)| *var)
+                        .or(*other);
+                    let got = cur.get("$v").and_then(|x| x.as_str());
+                    if !cur.is_null() && got != expect {
+                        st.out(format!("tag_selects_variant:{name}.{}", path.join(".")));
                     }
                 }
                 let Some(s) = self.pick_struct(name, o) else {
@@ -304,6 +532,10 @@ impl Schema {
         match v {
             Value::Number(n) => n.as_i64().map(|x| x as i128).or(n.as_u64().map(|x| x as i128)),
             Value::Object(o) => {
+                // schema enum (e.g. DeltaFormat): numeric value of the variant
+                if let (Some(e), Some(var)) = (o.get("$e").and_then(|x| x.as_str()), o.get("$v").and_then(|x| x.as_str())) {
+                    return self.enums.get(e).and_then(|m| m.get(var)).map(|x| *x as i128);
+                }
                 // flags word
                 let name = o.get("$t").and_then(|x| x.as_str()).unwrap_or("");
                 if self.flags.contains_key(name) {
@@ -335,6 +567,24 @@ impl Schema {
                     if let Some(fy) = s.fields.iter().find(|f| f.name == y) {
                         if let Some(Value::Array(a)) = o.get(&fy.owned) {
                             return Some(a.len() as i128);
+                        }
+                    }
+                }
+                // #[compile(plus_one($y.len()))]
+                if let Some(inner) = c.strip_prefix("plus_one(").and_then(|r| r.strip_suffix(".len())")) {
+                    let y = inner.trim().trim_start_matches('$');
+                    if let Some(fy) = s.fields.iter().find(|f| f.name == y) {
+                        if let Some(Value::Array(a)) = o.get(&fy.owned) {
+                            return Some(a.len() as i128 + 1);
+                        }
+                    }
+                }
+                // #[compile(2 * array_len($y))]
+                if let Some(inner) = c.strip_prefix("2 * array_len(").and_then(|r| r.strip_suffix(')')) {
+                    let y = inner.trim().trim_start_matches('$');
+                    if let Some(fy) = s.fields.iter().find(|f| f.name == y) {
+                        if let Some(Value::Array(a)) = o.get(&fy.owned) {
+                            return Some(2 * a.len() as i128);
                         }
                     }
                 }
@@ -392,8 +642,42 @@ impl Schema {
             ("bitmap_len", 1) => (us(arg(a[0])?) + 7) / 8,
             ("max_value_bitmap_len", 1) => (us(arg(a[0])?) + 1 + 7) / 8,
             ("try_into", 1) => us(arg(a[0])?),
-            // bespoke helpers: delta_value_count, item_variation_data_len, tuple_len,
-            // delta_set_index_data → not expressible here
+            // Device: number of uint16 words holding (end - start + 1) packed deltas of 2/4/8 bits
+            // (OpenType "Device and VariationIndex tables"); formats other than 1..3 carry no words
+            ("delta_value_count", 3) => {
+                let (fmt, start, end) = (arg(a[0])?, arg(a[1])?, arg(a[2])?);
+                let per_word = match fmt {
+                    1 => 8,
+                    2 => 4,
+                    3 => 2,
+                    _ => 0,
+                };
+                if per_word == 0 || end < start {
+                    0
+                } else {
+                    (end - start + 1 + per_word - 1) / per_word
+                }
+            }
+            // DeltaSetIndexMap: map_count entries of ((entryFormat & 0x30) >> 4) + 1 bytes
+            // (OpenType "Associating target items to variation data")
+            ("delta_set_index_data", 2) => {
+                let (fmt, n) = (us(arg(a[0])?), us(arg(a[1])?));
+                (((fmt & 0x30) >> 4) + 1) * n
+            }
+            // ItemVariationData: item_count rows of word_count "long" + (region_count - word_count)
+            // "short" deltas; LONG_WORDS (0x8000) doubles both sizes.  word_count > region_count is
+            // not a table (→ a length no array can have → outside the domain)
+            ("item_variation_data_len", 3) => {
+                let (items, wdc, regions) = (us(arg(a[0])?), us(arg(a[1])?), us(arg(a[2])?));
+                let (word, small) = if wdc & 0x8000 != 0 { (4, 2) } else { (2, 1) };
+                let words = wdc & 0x7FFF;
+                if words > regions {
+                    -1
+                } else {
+                    items * (words * word + (regions - words) * small)
+                }
+            }
+            // tuple_len (gvar/cvar tuple headers) → not expressible here
             _ => return Err(()),
         };
         Ok(Some(r))
@@ -425,6 +709,30 @@ impl Schema {
         bound: &BTreeMap<String, Option<i128>>,
         st: &mut St,
     ) {
+        // the schema says the generated writer skips an array of this table (`#[compile(skip)]`, in the
+        // IFT tables annotated "TODO remove this once write fonts side is implemented"): what the
+        // bytes will contain is not described by the schema
+        for f in &s.fields {
+            if f.is_array && f.compile.as_deref().map(|c| c.trim_start().starts_with("skip")).unwrap_or(false) {
+                st.unres(format!("writer_skips_array:{}.{}", s.name, f.name));
+            }
+        }
+        // (1b) `#[read_offset_with($n)] x_offset: Offset<[T]>` — the array behind the offset is read
+        // with n as its element count
+        for f in &s.fields {
+            if !(f.ty.contains("<[") && !f.read_with.is_empty()) {
+                continue;
+            }
+            let Some(Value::Array(arr)) = o.get(&f.owned) else { continue };
+            match self.operand(s, o, bound, &f.read_with[0]) {
+                Some(n) => {
+                    if n != arr.len() as i128 {
+                        st.out(format!("count:{}.{}", s.name, f.owned));
+                    }
+                }
+                None => st.unres(format!("unresolvable_count:{}.{} = ${}", s.name, f.owned, f.read_with[0])),
+            }
+        }
         // (1)(2) counts
         for f in &s.fields {
             let Some(c) = &f.count else { continue };
